@@ -201,6 +201,26 @@ def run(ctx):
                 judge_bytes_roundtrip(ctx, {"data": b"\x00" * z + body})
     for _ in range(ctx.scale(2000, 600000)):
         judge_bytes_roundtrip(ctx, {"data": gen_payload(rnd) or b"\x00"})
+    # LONG inputs ("every non-empty byte string"): a digit-count estimate, a chunked or a divide-and-conquer encoder is exact
+    # for address-sized input and drifts later.  Saturated (ff..ff), sparse (80 00..00, 01 00..00), 58^k +- 1 and random
+    # values at lengths from 129 bytes to 8 KiB (thorough: 128 KiB; the conversions are quadratic).
+    longs = list(range(129, 141)) + [200, 226, 227, 228, 255, 256, 257, 320, 361, 413, 512, 1000, 1001, 1024, 2048, 4096, 8192]
+    if ctx.thorough:
+        longs += [10000, 20000, 65536, 131072]
+    for li, ln in enumerate(longs):
+        n += 1
+        if not ctx.mine(n):
+            continue
+        pats = [b"\xff" * ln, b"\x80" + b"\x00" * (ln - 1), b"\x01" + b"\x00" * (ln - 1), b"\x00" * 3 + b"\xff" * (ln - 3), gen.rbytes(rnd, ln),
+                gen.rbytes(rnd, ln)]
+        k58 = (ln * 8 * 1000) // 5858          # 58^k has about ln bytes
+        for delta in (-1, 0, 1):
+            v = 58 ** k58 + delta
+            pats.append(v.to_bytes((v.bit_length() + 7) // 8, "big"))
+        for d_ in pats:
+            if ln > 20000 and d_ is not pats[0] and d_ is not pats[4]:
+                continue
+            judge_bytes_roundtrip(ctx, {"data": d_})
     for c in ALPH:
         n += 1
         if ctx.mine(n):
